@@ -373,38 +373,52 @@ hands the diagnostic on; the block for an ignored file touches nothing but `can_
 while no non-ignorable diagnostic has been seen. -/
 theorem emit_prog_ok : emitProgOk genEmit = true := by decide
 
-/-- Closed form of the session after any sequence of diagnostics, from any state. -/
+/-- **`ParseSess::has_errors` emits the parser's stashed diagnostics before it looks** (generated from the
+source).  Without it a stashed error counts without ever reaching the emitter: `stash_flush_matters`. -/
+theorem stash_is_flushed : hasErrorsEmitsStashed = true := by decide
+
+/-- Closed form of the session after any sequence of *emitted* diagnostics, from any state. -/
 theorem emit_closed_form (ds : List Diag) (s : Sess) :
-    (emitAll genEmit s ds).hasNonIgn = (s.hasNonIgn || ds.any (fun d => !d.ignorable)) ∧
-    (emitAll genEmit s ds).canReset =
+    (emitNowAll genEmit s ds).hasNonIgn = (s.hasNonIgn || ds.any (fun d => !d.ignorable)) ∧
+    (emitNowAll genEmit s ds).canReset =
       (if ds.any (fun d => !d.ignorable) then false else (s.canReset || (!s.hasNonIgn && !ds.isEmpty))) ∧
-    (emitAll genEmit s ds).errCount = s.errCount + ds.countP Diag.isError ∧
-    (emitAll genEmit s ds).shown = s.shown + ds.countP (fun d => !d.ignorable) :=
-  emitAll_of_ok genEmit emit_prog_ok ds s
+    (emitNowAll genEmit s ds).errCount = s.errCount + ds.countP Diag.isError ∧
+    (emitNowAll genEmit s ds).shown = s.shown + ds.countP (fun d => !d.ignorable) ∧
+    (emitNowAll genEmit s ds).stash = s.stash :=
+  emitNowAll_of_ok genEmit emit_prog_ok ds s
+
+/-- … and of a sequence leaving the parser, where some diagnostics are stashed instead of emitted. -/
+theorem emit_stash_closed_form (ds : List Diag) (s : Sess) :
+    emitAll genEmit s ds =
+      { emitNowAll genEmit s (ds.filter fun d => !d.stashed) with stash := s.stash ++ ds.filter fun d => d.stashed } :=
+  emitAll_split genEmit emit_prog_ok ds s
 
 /-- **`can_reset` ⇒ only ignored files have complained.**  If the shared flag is up after a sequence of
-diagnostics in a fresh session, every diagnostic so far was non-fatal and had its primary span in a local
-file on the ignore list. -/
+diagnostics in a fresh session, every diagnostic that went through the emitter was non-fatal and had its
+primary span in a local file on the ignore list. -/
 theorem can_reset_implies_only_ignored (ds : List Diag)
     (h : (emitAll genEmit Sess.init ds).canReset = true) :
-    ∀ d ∈ ds, d.level ≠ .fatal ∧ d.loc = .localFile true := by
-  obtain ⟨_, h2, _, _⟩ := emit_closed_form ds Sess.init
+    ∀ d ∈ ds, d.stashed = false → d.level ≠ .fatal ∧ d.loc = .localFile true := by
+  rw [emit_stash_closed_form] at h
+  simp only at h
+  obtain ⟨_, h2, _, _⟩ := emit_closed_form (ds.filter fun d => !d.stashed) Sess.init
   rw [h2] at h
-  intro d hd
-  by_cases ha : ds.any (fun d => !d.ignorable) = true
+  intro d hd hs
+  by_cases ha : (ds.filter fun d => !d.stashed).any (fun d => !d.ignorable) = true
   · simp [ha] at h
   · have : d.ignorable = true := by
       cases hi : d.ignorable with
       | true => rfl
-      | false => exact absurd (List.any_eq_true.2 ⟨d, hd, by simp [hi]⟩) ha
+      | false =>
+        exact absurd (List.any_eq_true.2 ⟨d, List.mem_filter.2 ⟨hd, by simp [hs]⟩, by simp [hi]⟩) ha
     simpa [Diag.ignorable] using this
 
-/-- The invariant behind it, from any state (`reset_errors()` touches neither flag, so it holds along every
-run of a session): `can_reset` is never up together with `has_non_ignorable_parser_errors`, and if it is up
-after a sequence, the whole sequence was ignorable. -/
+/-- The invariant behind it, from any state (`reset_errors()` touches neither flag, and emitting the stash is
+emitting, so it holds along every run of a session): `can_reset` is never up together with
+`has_non_ignorable_parser_errors`, and if it is up after a sequence, the whole sequence was ignorable. -/
 theorem can_reset_invariant (ds : List Diag) (s : Sess) (hs : s.canReset = true → s.hasNonIgn = false) :
-    ((emitAll genEmit s ds).canReset = true → (emitAll genEmit s ds).hasNonIgn = false) ∧
-    ((emitAll genEmit s ds).canReset = true → ∀ d ∈ ds, d.ignorable = true) := by
+    ((emitNowAll genEmit s ds).canReset = true → (emitNowAll genEmit s ds).hasNonIgn = false) ∧
+    ((emitNowAll genEmit s ds).canReset = true → ∀ d ∈ ds, d.ignorable = true) := by
   obtain ⟨h1, h2, _, _⟩ := emit_closed_form ds s
   rw [h1, h2]
   by_cases ha : ds.any (fun d => !d.ignorable) = true
@@ -431,30 +445,34 @@ theorem emitter_step_idempotent (s : Sess) (d : Diag) :
   rw [emitterStep_of_ok genEmit emit_prog_ok, emitterStep_of_ok genEmit emit_prog_ok s d]
   by_cases hi : d.ignorable = true <;> by_cases hn : s.hasNonIgn = true <;> simp [hi, hn]
 
-/-- An error that is fatal or lies outside the ignored files takes `can_reset` down for good and leaves a
-non-zero error count, whatever came before it and whatever follows it in the same call. -/
+/-- **A hard error is never lost on the way to the decision.**  An error that is fatal or lies outside the
+ignored files — emitted by the parser or only stashed — has, once `has_errors()` has emitted the stash,
+raised `has_non_ignorable_parser_errors`, taken `can_reset` down and left a non-zero error count, whatever
+came before it and whatever else the same call produced. -/
 theorem hard_error_poisons (s : Sess) (ds : List Diag) (h : ds.any Diag.hardError = true) :
-    (emitAll genEmit s ds).canReset = false ∧ (emitAll genEmit s ds).errCount ≠ 0 := by
-  obtain ⟨d, hd, hh⟩ := List.any_eq_true.1 h
-  simp only [Diag.hardError, Bool.and_eq_true, Bool.not_eq_true'] at hh
-  obtain ⟨_, h2, h3, _⟩ := emit_closed_form ds s
-  have ha : ds.any (fun d => !d.ignorable) = true := List.any_eq_true.2 ⟨d, hd, by simp [hh.2]⟩
-  have hc : 0 < ds.countP Diag.isError := List.countP_pos_iff.2 ⟨d, hd, hh.1⟩
-  rw [h2, h3]
-  simp only [ha, if_true, true_and]
-  omega
+    (flushStash genEmit (emitAll genEmit s ds)).hasNonIgn = true ∧
+    (flushStash genEmit (emitAll genEmit s ds)).canReset = false ∧
+    (flushStash genEmit (emitAll genEmit s ds)).errCount ≠ 0 :=
+  flush_poisoned genEmit emit_prog_ok ds s h
 
-/-- **The decisions of `parse_file_as_module`, as the generated arms have them**: accepted when no error is
-counted; accepted after `reset_errors()` when `can_reset` is up; `ParseError` otherwise; an `Err(e)` from the
-parser emits `e`, resets if `can_reset`, and is a `ParseError`; an unwinding call is a `ParseError` if the
-path exists and a `ParsePanicError` if not. -/
+/-- emitting the stash empties it -/
+theorem flush_empties_stash (s : Sess) : (flushStash genEmit s).stash = [] := by
+  unfold flushStash
+  rw [(emit_closed_form _ _).2.2.2.2]
+
+/-- **The decisions of `parse_file_as_module`, as the generated arms have them**: the diagnostics leave the
+parser; on `Ok`, `has_errors()` emits the stash and the file is accepted when no error is counted, accepted
+after `reset_errors()` when `can_reset` is up, and a `ParseError` otherwise; an `Err(e)` from the parser emits
+`e`, resets if `can_reset`, and is a `ParseError`; an unwinding call is a `ParseError` if the path exists and
+a `ParsePanicError` if not. -/
 theorem parse_file_decisions (s : Sess) (fp : FileParse) :
     parseFile genParse s fp =
       (let s1 := emitAll genEmit s fp.diags
        match fp.raw with
        | .ok =>
-         if s1.errCount = 0 then (s1, some .ok)
-         else if s1.canReset = true then (s1.reset, some .ok) else (s1, some .parseError)
+         let s2 := flushStash genEmit s1
+         if s2.errCount = 0 then (s2, some .ok)
+         else if s2.canReset = true then (s2.reset, some .ok) else (s2, some .parseError)
        | .err e =>
          let s2 := dcxEmit genEmit s1 e
          ((if s2.canReset = true then s2.reset else s2), some .parseError)
@@ -462,13 +480,14 @@ theorem parse_file_decisions (s : Sess) (fp : FileParse) :
   unfold parseFile
   cases fp.raw with
   | ok =>
-    simp only [genParse, fileArms, selectArm, patMatches, guardHolds, runPStmts, runPStmt, Sess.hasErrors]
-    by_cases h0 : (emitAll genEmit s fp.diags).errCount = 0
+    simp only [genParse, fileArms, selectArm, patMatches, evalGuard, hasErrorsCall, hasErrorsEmitsStashed, if_true,
+      runPStmts, runPStmt, Sess.hasErrors, flush_empties_stash, List.any_nil, Bool.or_false]
+    by_cases h0 : (flushStash genEmit (emitAll genEmit s fp.diags)).errCount = 0
     · simp [h0]
-    · by_cases hc : (emitAll genEmit s fp.diags).canReset = true <;> simp [h0, hc]
+    · by_cases hc : (flushStash genEmit (emitAll genEmit s fp.diags)).canReset = true <;> simp [h0, hc]
   | err e => rfl
   | unwound =>
-    simp only [genParse, fileArms, selectArm, patMatches, guardHolds, runPStmts, runPStmt]
+    simp only [genParse, fileArms, selectArm, patMatches, evalGuard, runPStmts, runPStmt]
     by_cases hp : fp.pathExists = true <;> simp [hp]
 
 /-- … and of `parse_crate` (the root): the same two ways of being accepted; every failing arm of
@@ -478,8 +497,9 @@ theorem parse_crate_decisions (s : Sess) (fp : FileParse) :
       (let s1 := emitAll genEmit s fp.diags
        match fp.raw with
        | .ok =>
-         if s1.errCount = 0 then (s1, some .ok)
-         else if s1.canReset = true then (s1.reset, some .ok) else (s1, some .parseError)
+         let s2 := flushStash genEmit s1
+         if s2.errCount = 0 then (s2, some .ok)
+         else if s2.canReset = true then (s2.reset, some .ok) else (s2, some .parseError)
        | .err e =>
          (dcxEmit genEmit s1 e,
           some (match fp.stage with | .build => .parserCreationError | .crateMod => .parsePanicError))
@@ -487,10 +507,11 @@ theorem parse_crate_decisions (s : Sess) (fp : FileParse) :
   unfold parseCrate
   cases fp.raw with
   | ok =>
-    simp only [genParse, crateArms, selectArm, patMatches, guardHolds, runPStmts, runPStmt, Sess.hasErrors]
-    by_cases h0 : (emitAll genEmit s fp.diags).errCount = 0
+    simp only [genParse, crateArms, selectArm, patMatches, evalGuard, hasErrorsCall, hasErrorsEmitsStashed, if_true,
+      runPStmts, runPStmt, Sess.hasErrors, flush_empties_stash, List.any_nil, Bool.or_false]
+    by_cases h0 : (flushStash genEmit (emitAll genEmit s fp.diags)).errCount = 0
     · simp [h0]
-    · by_cases hc : (emitAll genEmit s fp.diags).canReset = true <;> simp [h0, hc]
+    · by_cases hc : (flushStash genEmit (emitAll genEmit s fp.diags)).canReset = true <;> simp [h0, hc]
   | err e => cases fp.stage <;> rfl
   | unwound => cases fp.stage <;> rfl
 
@@ -503,15 +524,17 @@ theorem parse_never_stuck (s : Sess) (fp : FileParse) :
   · cases fp.raw <;> simp only [] <;> (repeat' split) <;> simp
 
 /-- **A fault is never reset.**  A file whose parse does not end in `Ok`, or that reports an error which is
-fatal or lies outside the ignored files, is *not accepted* — by `parse_file_as_module` and by `parse_crate`,
-in every state of the session (whatever ignored or non-ignored files were parsed before, whether or not
-`can_reset` is up when the call starts) and whatever other diagnostics the same call emits before or after. -/
+fatal or lies outside the ignored files (emitted or stashed), is *not accepted* — by `parse_file_as_module`
+and by `parse_crate`, in every state of the session (whatever ignored or non-ignored files were parsed
+before, whether or not `can_reset` is up when the call starts, whatever is still stashed) and whatever other
+diagnostics the same call produces before or after. -/
 theorem non_ignored_error_never_reset : NeverAccepts genParse := by
   have key : ∀ (s : Sess) (fp : FileParse), fp.fault = true → fp.raw = .ok →
-      (emitAll genEmit s fp.diags).errCount ≠ 0 ∧ (emitAll genEmit s fp.diags).canReset = false := by
+      (flushStash genEmit (emitAll genEmit s fp.diags)).errCount ≠ 0 ∧
+      (flushStash genEmit (emitAll genEmit s fp.diags)).canReset = false := by
     intro s fp hf hr
     simp only [FileParse.fault, FileParse.allDiags, hr, bne_self_eq_false, Bool.false_or] at hf
-    obtain ⟨h1, h2⟩ := hard_error_poisons s fp.diags hf
+    obtain ⟨_, h1, h2⟩ := hard_error_poisons s fp.diags hf
     exact ⟨h2, h1⟩
   constructor
   · intro s fp hf
@@ -531,10 +554,23 @@ theorem non_ignored_error_never_reset : NeverAccepts genParse := by
     | err e => cases fp.stage <;> simp
     | unwound => simp
 
-/-- Exactly when a module file is accepted: the parser returned `Ok`, and either nothing is counted (before
-*and* during the call) or nothing that is not ignorable has ever been seen by this session while at least
-one ignorable diagnostic has. -/
-theorem accepted_iff (s : Sess) (fp : FileParse) :
+/-- when nothing is stashed, the session after the call's diagnostics and the `has_errors()` call is the
+session after emitting them -/
+theorem no_stash_flush (s : Sess) (ds : List Diag) (hs : s.stash = []) (hd : ∀ d ∈ ds, d.stashed = false) :
+    flushStash genEmit (emitAll genEmit s ds) = emitNowAll genEmit s ds := by
+  rw [emit_stash_closed_form]
+  have h1 : (ds.filter fun d => !d.stashed) = ds := List.filter_eq_self.2 (fun d hm => by simp [hd d hm])
+  have h2 : (ds.filter fun d => d.stashed) = [] := List.filter_eq_nil_iff.2 (fun d hm => by simp [hd d hm])
+  rw [h1, h2, hs]
+  unfold flushStash
+  simp only [List.append_nil, List.filter_nil, emitNowAll]
+  apply sess_eq <;> simp only
+  exact ((emit_closed_form ds s).2.2.2.2.trans hs).symm
+
+/-- Exactly when a module file is accepted (nothing stashed): the parser returned `Ok`, and either nothing is
+counted (before *and* during the call) or nothing that is not ignorable has ever been seen by this session
+while at least one ignorable diagnostic has. -/
+theorem accepted_iff (s : Sess) (fp : FileParse) (hs : s.stash = []) (hd : ∀ d ∈ fp.diags, d.stashed = false) :
     (parseFile genParse s fp).2 = some .ok ↔
       fp.raw = .ok ∧
       ((s.errCount = 0 ∧ fp.diags.countP Diag.isError = 0) ∨
@@ -545,12 +581,12 @@ theorem accepted_iff (s : Sess) (fp : FileParse) :
   | err e => simp
   | unwound => by_cases hp : fp.pathExists = true <;> simp [hp]
   | ok =>
-    simp only [true_and]
-    by_cases h0 : (emitAll genEmit s fp.diags).errCount = 0
+    simp only [true_and, no_stash_flush s fp.diags hs hd]
+    by_cases h0 : (emitNowAll genEmit s fp.diags).errCount = 0
     · have : s.errCount = 0 ∧ fp.diags.countP Diag.isError = 0 := by omega
       simp [h0, this]
     · have hne : ¬ (s.errCount = 0 ∧ fp.diags.countP Diag.isError = 0) := by omega
-      by_cases hc : (emitAll genEmit s fp.diags).canReset = true
+      by_cases hc : (emitNowAll genEmit s fp.diags).canReset = true
       · simp only [h0, hc, if_false, if_true, true_iff]
         right
         rw [h2] at hc
@@ -570,33 +606,34 @@ theorem accepted_iff (s : Sess) (fp : FileParse) :
             List.isEmpty_eq_false_iff]
           exact hcr
 
-/-- An accepted file leaves no counted error behind (so the next file starts from a clean count). -/
+/-- An accepted file leaves neither a counted error nor a stashed diagnostic behind (so the next file starts
+from a clean count). -/
 theorem accepted_leaves_no_errors (s : Sess) (fp : FileParse) (h : (parseFile genParse s fp).2 = some .ok) :
-    (parseFile genParse s fp).1.errCount = 0 := by
+    (parseFile genParse s fp).1.errCount = 0 ∧ (parseFile genParse s fp).1.stash = [] := by
   rw [parse_file_decisions] at h ⊢
   cases hr : fp.raw with
   | err e => simp [hr] at h
   | unwound => by_cases hp : fp.pathExists = true <;> simp [hr, hp] at h
   | ok =>
     simp only [hr] at h ⊢
-    by_cases h0 : (emitAll genEmit s fp.diags).errCount = 0
-    · simp [h0]
-    · by_cases hc : (emitAll genEmit s fp.diags).canReset = true
+    by_cases h0 : (flushStash genEmit (emitAll genEmit s fp.diags)).errCount = 0
+    · simp [h0, flush_empties_stash]
+    · by_cases hc : (flushStash genEmit (emitAll genEmit s fp.diags)).canReset = true
       · simp [h0, hc, Sess.reset]
       · simp [h0, hc] at h
 
 /-- What `ignore` is for: while this session has seen nothing that is not ignorable, a file whose diagnostics
 are all non-fatal and lie in ignored files is accepted (its errors are reset), however many they are. -/
-theorem ignored_errors_are_reset (s : Sess) (fp : FileParse) (hs : s.hasNonIgn = false) (hr : fp.raw = .ok)
-    (hd : ∀ d ∈ fp.diags, d.ignorable = true) (hne : fp.diags ≠ []) :
+theorem ignored_errors_are_reset (s : Sess) (fp : FileParse) (hs : s.hasNonIgn = false) (hst : s.stash = [])
+    (hr : fp.raw = .ok) (hd : ∀ d ∈ fp.diags, d.ignorable = true ∧ d.stashed = false) (hne : fp.diags ≠ []) :
     (parseFile genParse s fp).2 = some .ok := by
-  rw [accepted_iff]
+  rw [accepted_iff s fp hst (fun d hm => (hd d hm).2)]
   refine ⟨hr, Or.inr ⟨?_, Or.inr ⟨hs, hne⟩⟩⟩
   cases ha : fp.diags.any (fun d => !d.ignorable) with
   | false => rfl
   | true =>
     obtain ⟨d, hm, hh⟩ := List.any_eq_true.1 ha
-    simp [hd d hm] at hh
+    simp [(hd d hm).1] at hh
 
 /-! ### lifted into the project model -/
 
@@ -633,7 +670,7 @@ theorem fault_implies_exit_one_diags (pi : Nat → FileParse) (ops : FileOps) (k
 /-! ### sensitivity and non-vacuity -/
 
 /-- a non-fatal error whose primary span lies in the file itself -/
-def ownErr (ignored : Bool) : Diag := ⟨.error, .localFile ignored⟩
+def ownErr (ignored : Bool) : Diag := { level := .error, loc := .localFile ignored }
 /-- a recoverable syntax error: the parser reports it and returns `Ok` -/
 def recoverable (ignored : Bool) : FileParse := { diags := [ownErr ignored] }
 def clean : FileParse := {}
@@ -666,6 +703,18 @@ theorem can_reset_clear_matters :
     runProjectE genParse (ignPi (recoverable false)) formatProject formatFile idOps .files {} ignTree = ⟨.err, []⟩ := by
   decide
 
+/-- **Sensitivity: emitting the stash matters** (the defect D4 of the pinned tree, repaired in `has_errors`).
+If `has_errors()` only looks, a stashed error (`static X = 1;`) in a file that is *not* ignored never reaches the
+emitter; after an ignored file with a recoverable error `can_reset` is still up, the count is reset, the file
+is accepted and the root and the faulty file are rewritten.  With the generated value the crate fails. -/
+theorem stash_flush_matters :
+    let stashedErr : FileParse := { diags := [{ level := .error, loc := .localFile false, stashed := true }] }
+    faultyE (ignPi stashedErr) {} ignTree = true ∧
+    runProjectE { genParse with flush := false } (ignPi stashedErr) formatProject formatFile idOps .files {} ignTree =
+      ⟨.ok {}, [⟨0, .write .file, ['R', '\n']⟩, ⟨2, .write .file, ['B', '\n']⟩]⟩ ∧
+    runProjectE genParse (ignPi stashedErr) formatProject formatFile idOps .files {} ignTree = ⟨.err, []⟩ := by
+  decide
+
 /-- the hypothesis of `fault_implies_no_write` is not always true, and the conclusion is not always true either:
 with the second module healthy the ignored module's error is reset and the run writes the two files that are
 not ignored (never the ignored one) -/
@@ -673,15 +722,16 @@ example : faultyE (ignPi clean) {} ignTree = false ∧
     runProjectE genParse (ignPi clean) formatProject formatFile idOps .files {} ignTree =
       ⟨.ok {}, [⟨0, .write .file, ['R', '\n']⟩, ⟨2, .write .file, ['B', '\n']⟩]⟩ := by decide
 
-/-- order does not help the faulty module: visited *before* the ignored one it fails as well; and an ignored
-module whose parse ends in `Err` (an unrecoverable error) fails the run although all its diagnostics are dropped -/
+/-- order does not help the faulty module: visited *before* the ignored one it fails as well; an ignored module
+alone is skipped and the root written; and an ignored module whose parse ends in `Err` (an unrecoverable error)
+fails the run although all its diagnostics are dropped -/
 example :
     let swapped : Nat → FileParse := fun | 1 => recoverable false | 2 => recoverable true | _ => clean
     let t : Tree := .node { path := 0, parse := .ok, orig := ['r'], visited := ['R'] }
       (.found (.node { path := 1, parse := .ok, orig := ['a'], visited := ['A'] } .nil)
         (.found (.node { path := 2, parse := .ok, orig := ['b'], visited := ['B'], ignored := true } .nil) .nil))
     runProjectE genParse swapped formatProject formatFile idOps .files {} t = ⟨.err, []⟩ ∧
-    runProjectE genParse (ignPi clean ∘ fun n => n) formatProject formatFile idOps .files {}
+    runProjectE genParse (ignPi clean) formatProject formatFile idOps .files {}
       (.node { path := 0, parse := .ok, orig := ['r'], visited := ['R'] }
         (.found (.node { path := 1, parse := .ok, orig := ['a'], visited := ['A'], ignored := true } .nil) .nil)) =
       ⟨.ok {}, [⟨0, .write .file, ['R', '\n']⟩]⟩ ∧
@@ -689,13 +739,15 @@ example :
       ignTree = ⟨.err, []⟩ := by decide
 
 /-- the hypotheses of `can_reset_implies_only_ignored`, `can_reset_invariant`, `hard_error_poisons`,
-`ignored_errors_are_reset` and `accepted_leaves_no_errors` are satisfiable by non-trivial values -/
+`ignored_errors_are_reset` and `accepted_leaves_no_errors` are satisfiable by non-trivial values; the last
+line is a quirk the model predicted and the binary confirmed: after a mere *warning* in a file that is not
+ignored, the recoverable error of an ignored file is no longer reset and the run fails -/
 example :
-    (emitAll genEmit Sess.init [ownErr true, ⟨.warning, .localFile true⟩]).canReset = true ∧
+    (emitAll genEmit Sess.init [ownErr true, { level := .warning, loc := .localFile true }]).canReset = true ∧
     (emitAll genEmit Sess.init [ownErr true, ownErr false, ownErr true]).canReset = false ∧
-    [ownErr true, ⟨.fatal, .localFile true⟩].any Diag.hardError = true ∧
-    (parseFile genParse Sess.init (recoverable true)) = (⟨false, true, 0, 0⟩, some .ok) ∧
-    (parseFile genParse ⟨false, true, 0, 0⟩ (recoverable false)) = (⟨true, false, 1, 1⟩, some .parseError) ∧
-    (parseFile genParse ⟨true, false, 0, 1⟩ (recoverable true)) = (⟨true, false, 1, 1⟩, some .parseError) := by decide
+    [ownErr true, { level := .fatal, loc := .localFile true }].any Diag.hardError = true ∧
+    (parseFile genParse Sess.init (recoverable true)) = (⟨false, true, 0, 0, []⟩, some .ok) ∧
+    (parseFile genParse ⟨false, true, 0, 0, []⟩ (recoverable false)) = (⟨true, false, 1, 1, []⟩, some .parseError) ∧
+    (parseFile genParse ⟨true, false, 0, 1, []⟩ (recoverable true)) = (⟨true, false, 1, 1, []⟩, some .parseError) := by decide
 
 end RF.Props.C05
